@@ -88,9 +88,10 @@ def lean_audit(pid, names, extra_imports=()):
             f.write(f'#print axioms {n}\n')
     rc, out = run(['lake', 'env', 'lean', path], cwd=LEAN, timeout=1200)
     res = {}
-    for m in re.finditer(r"'([^']+)' depends on axioms: \[([^\]]*)\]", out):
+    # names may themselves end in primes (findSub_some'): anchor on the opening quote and the fixed tail
+    for m in re.finditer(r"'([A-Za-z0-9_\.']+)' depends on axioms: \[([^\]]*)\]", out):
         res[m.group(1)] = [a.strip() for a in m.group(2).replace('\n', ' ').split(',') if a.strip()]
-    for m in re.finditer(r"'([^']+)' does not depend on any axioms", out):
+    for m in re.finditer(r"'([A-Za-z0-9_\.']+)' does not depend on any axioms", out):
         res[m.group(1)] = []
     return rc, out, res
 
